@@ -79,6 +79,8 @@ func applyBOp(b *buffer.Buffer, o BOp, variant int) (taken []byte, isTake bool) 
 		return []byte(b.TakeRedactableBytes()), true
 	case "ACC":
 		callAccessors(b)
+	case "GR":
+		b.Grow(o.N)
 	default:
 		panic("unknown op " + o.Op)
 	}
